@@ -1,6 +1,225 @@
 // Contract harnesses for ntp-proto/src/packet/v5/extension_fields.rs (child module: sees private items).
-#![allow(unused_imports)]
+// Properties: C23/C22 (ReferenceIdRequest::{decode,to_response}, ReferenceIdResponse::decode are
+// total), C24 (reference-id field round trips), C18 (to_response returns server filter bytes only).
+#![allow(unused_imports, dead_code)]
 use super::*;
+use std::io::Cursor;
+
+/// every value of the request type, including those only the decoder can produce
+/// (payload length not a multiple of 4, window outside the 512-byte filter)
+pub(crate) fn any_refid_request() -> ReferenceIdRequest {
+    ReferenceIdRequest { payload_len: kani::any(), offset: kani::any() }
+}
+
+// ================================================================ C23 / C22
+
+/// decode: no panic for every message of length 0..=65531 (the bound RawExtensionField::deserialize
+/// guarantees: a field's declared length is a u16 and includes the 4 header bytes);
+/// Ok <=> len >= 2; payload_len == len; offset == first two bytes (big endian).
+/// Complete in the length (the function reads only the length and bytes 0..2).
+fn refid_request_decode_total<const N: usize>() {
+    let data: [u8; N] = kani::any();
+    let len: usize = kani::any();
+    kani::assume(len <= N);
+    let msg = &data[..len];
+    match ReferenceIdRequest::decode(msg) {
+        Ok(r) => {
+            assert!(len >= 2);
+            assert!(r.payload_len as usize == len);
+            assert!(r.offset == u16::from_be_bytes([msg[0], msg[1]]));
+        }
+        Err(ParsingError::IncorrectLength) => assert!(len < 2),
+        Err(_) => panic!("unexpected error kind"),
+    }
+    kani::cover!(len == N, "longest field reachable");
+    kani::cover!(len == 1, "short field reachable");
+}
+#[kani::proof]
+fn c23_b_refid_request_decode_total() {
+    refid_request_decode_total::<1100>();
+}
+/// all message lengths a field can have (the function reads only the length and bytes 0..2)
+#[kani::proof]
+fn c23_tp_refid_request_decode_total() {
+    refid_request_decode_total::<65531>();
+}
+/// canary: decode without the caller's length guarantee panics (`expect` on the u16 conversion).
+#[kani::proof]
+fn c23_canary_refid_request_decode_oversize() {
+    let data = [0u8; 65540];
+    let len: usize = kani::any();
+    kani::assume(len <= 65540);
+    let _ = ReferenceIdRequest::decode(&data[..len]);
+}
+
+/// to_response: total for every (payload_len, offset) pair and every filter; Some <=> the window
+/// lies inside the 512-byte filter; the bytes are exactly the server filter's window (C18: the
+/// response carries server data only, nothing of the request but the two numbers).
+#[kani::proof]
+fn c23_p_refid_to_response_total() {
+    let filter = crate::packet::verif::any_bloom();
+    let req = any_refid_request();
+    let (off, len) = (req.offset as usize, req.payload_len as usize);
+    match req.to_response(&filter) {
+        Some(resp) => {
+            assert!(off + len <= 512);
+            assert!(resp.bytes().len() == len);
+            let i: usize = kani::any();
+            kani::assume(i < len);
+            assert!(resp.bytes()[i] == filter.as_bytes()[off + i]);
+        }
+        None => assert!(off + len > 512),
+    }
+    kani::cover!(off + len == 512 && len == 3, "odd-length window at the end reachable");
+    kani::cover!(off == 513, "out of range reachable");
+}
+
+// ================================================================ C24: round trips
+
+fn put_request(r: &ReferenceIdRequest, out: &mut [u8]) -> (std::io::Result<()>, usize) {
+    let mut cur = Cursor::new(out);
+    let res = r.serialize(&mut cur);
+    (res, cur.position() as usize)
+}
+
+/// request, payload a multiple of 4 in 4..=N: encode succeeds, writes 4 + payload bytes, the
+/// header says type 0xF503 / length payload+4, and decoding the written payload returns the value.
+fn refid_request_roundtrip<const N: usize>() {
+    let r = any_refid_request();
+    kani::assume(r.payload_len as usize <= N && r.payload_len >= 4 && r.payload_len % 4 == 0);
+    let mut out = [0xAAu8; 64];
+    let (res, n) = put_request(&r, &mut out);
+    assert!(res.is_ok());
+    assert!(n == 4 + r.payload_len as usize);
+    assert!(out[0] == 0xF5 && out[1] == 0x03);
+    assert!(u16::from_be_bytes([out[2], out[3]]) as usize == n);
+    let back = ReferenceIdRequest::decode(&out[4..n]).unwrap();
+    assert!(back == r);
+    kani::cover!(r.payload_len as usize == N, "largest payload reachable");
+}
+#[kani::proof]
+#[kani::unwind(5)]
+fn c24_b_refid_request_roundtrip() {
+    refid_request_roundtrip::<12>();
+}
+#[kani::proof]
+#[kani::unwind(8)]
+fn c24_tb_refid_request_roundtrip() {
+    refid_request_roundtrip::<24>();
+}
+
+/// "encode succeeds for every value decode returns": the decoder accepts any payload length >= 2
+/// (NTPv5 field lengths need not be multiples of 4). EXPECTED TO FAIL (finding): for a payload
+/// length that is not a multiple of 4 `serialize` hits `assert_eq!(payload_len % 4, 0)` and panics.
+fn refid_request_decoded_reencodes<const N: usize>() {
+    let data: [u8; N] = kani::any();
+    let len: usize = kani::any();
+    kani::assume(len <= N);
+    if let Ok(r) = ReferenceIdRequest::decode(&data[..len]) {
+        let mut out = [0u8; 64];
+        let (res, n) = put_request(&r, &mut out);
+        assert!(res.is_ok());
+        // wire size of a V5 field with this payload: header + payload, padded to a word
+        assert!(n == (4 + len + 3) / 4 * 4);
+        let back = ReferenceIdRequest::decode(&out[4..4 + len]).unwrap();
+        assert!(back == r);
+    }
+    kani::cover!(len == N, "largest payload reachable");
+}
+#[kani::proof]
+#[kani::unwind(5)]
+fn c24_b_refid_request_decoded_reencodes() {
+    refid_request_decoded_reencodes::<12>();
+}
+
+/// response: every byte string of length <= N: encode succeeds, writes 4 + len rounded up to a
+/// word, header says type 0xF504 / length len+4, padding bytes are zero, decode returns the value.
+fn refid_response_roundtrip<const N: usize>() {
+    let data: [u8; N] = kani::any();
+    let len: usize = kani::any();
+    kani::assume(len <= N);
+    let r = ReferenceIdResponse::decode(&data[..len]);
+    assert!(r.bytes() == &data[..len]);
+    let mut out = [0xAAu8; 64];
+    let mut cur = Cursor::new(&mut out[..]);
+    assert!(r.serialize(&mut cur).is_ok());
+    let n = cur.position() as usize;
+    assert!(n == (4 + len + 3) / 4 * 4);
+    assert!(out[0] == 0xF5 && out[1] == 0x04);
+    assert!(u16::from_be_bytes([out[2], out[3]]) as usize == 4 + len);
+    let i: usize = kani::any();
+    if i >= 4 + len && i < n {
+        assert!(out[i] == 0);
+    }
+    let back = ReferenceIdResponse::decode(&out[4..4 + len]);
+    assert!(back == r);
+    kani::cover!(len == N, "largest payload reachable");
+    kani::cover!(len % 4 == 1, "padding reachable");
+}
+#[kani::proof]
+#[kani::unwind(14)]
+fn c24_b_refid_response_roundtrip() {
+    refid_response_roundtrip::<12>();
+}
+#[kani::proof]
+#[kani::unwind(26)]
+fn c24_tb_refid_response_roundtrip() {
+    refid_response_roundtrip::<24>();
+}
+/// a value built with the public constructor for an empty window encodes inconsistently:
+/// canary for the size claim (false for payload_len == 0: 8 bytes written, length field says 4).
+#[kani::proof]
+#[kani::unwind(5)]
+fn c24_canary_refid_request_empty_window_size() {
+    let off: u16 = kani::any();
+    kani::assume(off <= 512);
+    let r = ReferenceIdRequest::new(0, off).unwrap();
+    let mut out = [0u8; 64];
+    let (_res, n) = put_request(&r, &mut out);
+    assert!(n == u16::from_be_bytes([out[2], out[3]]) as usize);
+}
+
+// ---- C34 snippet for kani/ntp_proto/packet/v5/extension_fields.rs (append before the replay footer).
+// The byte-exactness of to_response is proved in server_reference_id.rs (c34_p_to_response_exact_or_none,
+// requests built through ReferenceIdRequest::decode). Here, with direct access to the private
+// fields: the Some/None decision and the answer length for EVERY (payload_len, offset) in u16 x u16.
+#[kani::proof]
+fn c34_p_to_response_range_all_u16() {
+    let req = ReferenceIdRequest { payload_len: kani::any(), offset: kani::any() };
+    let filter = BloomFilter::new();
+    let in_range = req.offset as usize + req.payload_len as usize <= 512;
+    match req.to_response(&filter) {
+        Some(resp) => {
+            assert!(in_range);
+            assert!(resp.bytes().len() == req.payload_len as usize);
+        }
+        None => { assert!(!in_range) }
+    }
+    kani::cover!(in_range && req.payload_len == 512, "whole filter reachable");
+    kani::cover!(!in_range && req.offset < 512, "overlong request reachable");
+}
+
+// ReferenceIdRequest::new under its caller's guarantee (payload_len, offset <= 512, which
+// RemoteBloomFilter's invariant ensures): Some exactly for multiples of 4 that end inside the filter.
+// (Without that guarantee `payload_len + offset` overflows u16, e.g. new(65532, 8): a debug-build
+// panic; no caller in the repository can reach it.)
+#[kani::proof]
+fn c34_p_request_new() {
+    let (len, off): (u16, u16) = (kani::any(), kani::any());
+    kani::assume(len <= 512 && off <= 512);
+    match ReferenceIdRequest::new(len, off) {
+        Some(r) => { assert!(len % 4 == 0 && len + off <= 512 && r.payload_len == len && r.offset == off) }
+        None => { assert!(len % 4 != 0 || len + off > 512) }
+    }
+    kani::cover!(ReferenceIdRequest::new(len, off).is_some(), "accepted");
+}
+
+// FALSE (canary): the server answers every request.
+#[kani::proof]
+fn c34_canary_to_response_always_some() {
+    let req = ReferenceIdRequest { payload_len: kani::any(), offset: kani::any() };
+    assert!(req.to_response(&BloomFilter::new()).is_some());
+}
 
 #[cfg(all(kani, test))]
 mod replay {
